@@ -2,7 +2,9 @@
 from vlib.framework import PUnit, LUnit, BUnit
 from bounded import b_seq as B
 
-P_UNITS = []
+from contracts import effects as E
+
+P_UNITS = [LUnit("effect-order", E.lemma_effect_order)]
 
 
 def build(tier, seed):
